@@ -986,6 +986,20 @@ func p4(w *World, r *Report, reach *Reach, scope []*ssa.Function) {
 						continue
 					}
 					fkey := name + ":field-nil-guard:" + w.Canon(fa)
+					// the callee returns nil only together with an error, and the store is
+					// reached only on the edge where that error is nil
+					if errV != nil && w.nilOnlyWithErr(callees) {
+						protected := false
+						for _, g := range w.Guards(fn) {
+							if bo, isB := g.If.Cond.(*ssa.BinOp); isB && (sameValue(bo.X, errV) || sameValue(bo.Y, errV)) && g.Protects(st.Block()) {
+								protected = true
+							}
+						}
+						if protected {
+							r.OK("P-4", fkey, "the value is stored only where the callee's error is nil, and the callee returns nil only together with an error", site(w, st))
+							continue
+						}
+					}
 					var guards []*Guard
 					for _, g := range w.Guards(fn) {
 						bo, ok := g.If.Cond.(*ssa.BinOp)
